@@ -535,6 +535,27 @@ def main(argv=None):
         with multiprocessing.get_context("fork").Pool(max(1, min(16, (os.cpu_count() or 2) - 1))) as pool:
             for S in pool.starmap(process, [(c, have_driver) for c in chunks]):
                 absorb(ck, S)
+    # Off the millisecond grid (documented known finding, same root cause as C10:off-ms-grid): Event floors an
+    # assigned timestamp to the ms but keeps microsecond durations, so a split at an off-grid instant shifts the
+    # second half.  Measured on every run on a fixed witness; reported only while listed open in known_findings.json.
+    try:
+        from aw_core.models import Event
+        import importlib
+        uno = importlib.import_module("aw_transform.union_no_overlap")
+        a = [mk_event(Event, BASE, 1500, {"l": 1})]
+        b = [mk_event(Event, BASE, 3000, {"l": 2})]
+        out = uno.union_no_overlap(a, b)
+        from .evutil import us_of_dt, us_of_td
+        view = [(us_of_dt(e.timestamp) - BASE, us_of_td(e.duration), e.data["l"]) for e in out]
+        ck.coverage["off_ms_grid_witness"] = {"a": [[0, 1500]], "b": [[0, 3000]], "impl": view}
+        ck.evaluations += 1
+        overlap = any(x[0] < y[0] + y[1] and y[0] < x[0] + x[1] for i, x in enumerate(view) for y in view[i + 1:])
+        covered_end = max((t + d for t, d, _ in view), default=0)
+        if (overlap or covered_end != 3000) and any(k.get("signature") == "C15:off-ms-grid" for k in ck.known):
+            ck.failing_input("C15:off-ms-grid", f"off the ms grid: a=[(0,1500us)], b=[(0,3000us)] -> {view}",
+                             {"a_us": [[0, 1500]], "b_us": [[0, 3000]], "impl": view})
+    except Exception as ex:  # the probe must never mask the real result
+        ck.coverage["off_ms_grid_witness"] = f"probe raised {type(ex).__name__}: {ex}"
     ck.coverage["ties"] = {
         "_split_event": "A (differential, stream split + inside union_no_overlap) + B (bridge_split_event)",
         "union_no_overlap loop body": "A (differential) + B (bridge_uno_step)",
